@@ -244,6 +244,23 @@ pub fn dispatch(f: &[&str]) -> String {
             x.hash(&mut h);
             format!("OK {}", hex::encode(h.0))
         }
+        "opt" => {
+            let mut a = Allocator::new();
+            let p = val::parse(&mut a, f[1]).unwrap();
+            match chialisp::classic::clvm_tools::stages::stage_2::optimize::optimize_sexp(&mut a, p, rc_runner()) {
+                Ok(n) => format!("OK {}", val::print(&a, n)),
+                Err(_) => "ERR".to_string(),
+            }
+        }
+        "sub_args" => {
+            let mut a = Allocator::new();
+            let p = val::parse(&mut a, f[1]).unwrap();
+            let q = val::parse(&mut a, f[2]).unwrap();
+            match chialisp::classic::clvm_tools::stages::stage_2::optimize::sub_args(&mut a, p, q) {
+                Ok(n) => format!("OK {}", val::print(&a, n)),
+                Err(_) => "ERR".to_string(),
+            }
+        }
         other => format!("BADOP {}", other),
     }
 }
